@@ -443,6 +443,48 @@ let () =
               Printf.printf "rule %d unmatchable proved=%b states=%d\n" r v !count
           done
         end
+      | L [A "tablesfile"; A path; A name] ->
+        (* decode a real --tables-file with the proved decoder; re-encode every set and compare with the file *)
+        let ic = open_in_bin path in
+        let len = in_channel_length ic in
+        let raw = really_input_string ic len in
+        close_in ic;
+        let bs = List.init len (fun i -> n_of_int (Char.code raw.[i])) in
+        let nm = List.init (String.length name) (fun i -> n_of_int (Char.code name.[i])) in
+        (match dec_file (nat_of_int (len + 1)) bs nm with
+         | Found ts ->
+           Printf.printf "tablesfile found %d\n" (List.length ts);
+           List.iter (fun t ->
+               Printf.printf "table id=%d flags=%d hilen=%d lolen=%d data=%s\n" (int_of_n t.t_id) (int_of_n t.t_flags)
+                 (int_of_n t.t_hilen) (int_of_n t.t_lolen) (String.concat "," (List.map (fun z -> string_of_int (int_of_z z)) t.t_data))) ts
+         | NotFound -> Printf.printf "tablesfile notfound\n"
+         | Malformed -> Printf.printf "tablesfile malformed\n");
+        (* walk all sets, re-encode *)
+        let rec walk bs acc = match bs with
+          | [] -> Some (List.rev acc)
+          | _ -> (match dec_set_header bs with
+              | Some ((n, body), rest) ->
+                (match dec_tables (nat_of_int (List.length body + 1)) body with
+                 | Some ts -> walk rest ((n, ts) :: acc)
+                 | None -> None)
+              | None -> None) in
+        (match walk bs [] with
+         | Some sets ->
+           (* the version string is not returned by dec_set_header: take it from the file (bytes after offset 14 up to NUL) *)
+           let version_at off = let b = Buffer.create 8 in let i = ref (off + 14) in
+             while raw.[!i] <> '\000' do Buffer.add_char b raw.[!i]; incr i done; Buffer.contents b in
+           let off = ref 0 in
+           let ok = ref true in
+           List.iter (fun (n, ts) ->
+               let v = version_at !off in
+               let vs = List.init (String.length v) (fun i -> n_of_int (Char.code v.[i])) in
+               let enc = enc_set { s_name = n; s_version = vs; s_tables = ts } in
+               let l = List.length enc in
+               let same = (!off + l <= len) && (let r = ref true in List.iteri (fun i b -> if Char.code raw.[!off + i] <> int_of_n b then r := false) enc; !r) in
+               if not same then ok := false;
+               off := !off + l) sets;
+           Printf.printf "reencode sets=%d identical=%b\n" (List.length sets) (!ok && !off = len)
+         | None -> Printf.printf "reencode failed\n")
       | L [A "kinds"] ->
         Printf.printf "kinds %s\n" (String.concat " " (List.map (fun r ->
             match rule_kind r with
